@@ -2593,6 +2593,10 @@ func setFNext(cond, next *node) {
 		cond.action = aBranch
 		cond.gen = branch
 		cond.fnext = next
+	} else if cond.rval.IsValid() {
+		// The condition was computed at compile time: its exec is a nop,
+		// so it must branch explicitly on its constant value.
+		cond.gen = branch
 	}
 	if cond.kind == parenExpr {
 		setFNext(cond.lastChild(), next)
